@@ -1456,6 +1456,13 @@ func watchdog() {
 	}
 }
 
+var runStartHooks []func()
+
+// OnRunStart registers a function that runs at the start of every execution, before thread 0: shims
+// use it to reset package-level state of the code under test (sequence counters), so that every
+// execution starts from the same state.
+func OnRunStart(f func()) { runStartHooks = append(runStartHooks, f) }
+
 // Run executes body as thread 0 under the scheduler and returns when the execution is over.
 func Run(opt Options, body func(e *Exec)) *Exec {
 	if Native {
@@ -1469,6 +1476,9 @@ func Run(opt Options, body func(e *Exec)) *Exec {
 	e := &Exec{opt: opt, yield: make(chan struct{}), chans: map[uintptr]*chState{}, Trace: make([]Choice, 0, 128)}
 	E = e
 	watchdogOnce.Do(func() { go watchdog() })
+	for _, h := range runStartHooks {
+		h()
+	}
 	inRun = true
 	defer func() { inRun = false }()
 	e.spawn(nil, "main", nil, func() { body(e) })
